@@ -249,6 +249,8 @@ def run(plan):
             kind = fx["kind"]
             r = fx.get("r", 3)
             api = fx.get("api", "send")
+            if fx.get("pre_burst"):
+                await s.do({"op": "dev_burst", "n": fx["pre_burst"], "d": 0.05})
             if fx.get("pre_close"):
                 await s.do({"op": "dev_close", "rst": fx.get("pre_rst", False)})
             if fx.get("expiry_in") is not None and version == 3:
@@ -405,6 +407,8 @@ def gen_fault(rng, version, kind=None, first=True):
     elif kind == "fin_idle":
         fx["pre_close"] = True
         fx["pre_rst"] = rng.random() < 0.3
+        if rng.random() < 0.4:
+            fx["pre_burst"] = rng.choice([1, 2, 5])     # unread status reports are waiting when the unit hangs up
     elif kind == "refuse":
         fx["pre_close"] = True
         fx["conn"] = [[rng.choice(["refuse", "refuse", "oserror:113", "oserror:101", "oserror:24", "oserror:105", "oserror:99"]),
